@@ -24,9 +24,10 @@ LOCK = 'usim._primitives.locks.Lock'
 CLOSED = 'usim._basics.streams.StreamClosed'
 
 
-def _is_pop(event):
+def _is_pop(event, path=None):
     return event.kind == 'call' and event.get('exit') == 'normal' and \
-        call_receiver(event) == 'self._buffer' and \
+        (rules.receiver_at(path, event) if path is not None
+         else call_receiver(event)) == 'self._buffer' and \
         isinstance(event.node, ast.Call) and event.node.func.attr in ('popleft', 'pop')
 
 
@@ -52,7 +53,7 @@ def run(check, an: Analysis):
     n_pop = 0
     for path in recv_paths:
         for index, event in enumerate(path.events):
-            if not _is_pop(event):
+            if not _is_pop(event, path):
                 continue
             n_pop += 1
             later = [e for e in path.events[index + 1:] if is_suspension(e)]
@@ -79,7 +80,7 @@ def run(check, an: Analysis):
     n_append = 0
     for path in an.paths(put):
         for index, event in enumerate(path.events):
-            if event.kind == 'call' and call_receiver(event) == 'self._buffer' \
+            if event.kind == 'call' and rules.receiver_at(path, event) == 'self._buffer' \
                     and event.node.func.attr in ('append', 'appendleft', 'extend'):
                 n_append += 1
                 open_ = rules.fact_value(event, ('truth', 'self._closed'))
@@ -91,7 +92,7 @@ def run(check, an: Analysis):
     closed_raise = [p for p in an.paths(put) if p.kind == 'raise'
                     and p.outcome[1].cls == CLOSED]
     check.instance('D', 'put:closed-raises', bool(closed_raise) and all(
-        not any(e.kind == 'call' and call_receiver(e) == 'self._buffer' for e in p.events)
+        not any(e.kind == 'call' and rules.receiver_at(p, e) == 'self._buffer' for e in p.events)
         for p in closed_raise), where_fn(put.fn),
         'put on a closed queue raises StreamClosed and stores nothing')
     n_raise = 0
@@ -124,7 +125,7 @@ def run(check, an: Analysis):
                                'atomic block', path=rules.path_lines(path, index))
     for path in an.paths(put):
         for index, event in enumerate(path.events):
-            if event.kind == 'call' and call_receiver(event) == 'self._buffer' \
+            if event.kind == 'call' and rules.receiver_at(path, event) == 'self._buffer' \
                     and event.node.func.attr == 'append':
                 block = rules.atomic_block(path, index)
                 woke = any(is_call_to(e, '__awake_next__') for e in block)
@@ -162,7 +163,7 @@ def run(check, an: Analysis):
     # receive inside the mutex
     for path in recv_paths:
         for index, event in enumerate(path.events):
-            if not _is_pop(event):
+            if not _is_pop(event, path):
                 continue
             entered = any(e.kind == 'susp' and e['how'] == 'aenter' and e['exit'] == 'normal'
                           and is_call_to(e, '__aenter__', LOCK)
@@ -230,7 +231,7 @@ def _is_pop_failure(path, handler_pos) -> bool:
     for event in reversed(path.events[:handler_pos]):
         if event.kind == 'call':
             return event.get('exit') == 'ext:IndexError' and \
-                call_receiver(event) == 'self._buffer'
+                rules.receiver_at(path, event) == 'self._buffer'
         if event.kind in ('test', 'finally'):
             continue
         return False
